@@ -13,7 +13,7 @@ META = dict(
     engines=[
         dict(name="unit", path="harness/unit", serves_properties=["C18", "C19", "C20"],
              kind_free_text="rapid properties and exhaustive small-domain enumerations over pure components, oracle = independent reference implementation"),
-        dict(name="seq", path="harness/seq (engine.go, exec.go, model in harness/model)", serves_properties=["C01", "C02", "C03", "C05", "C09", "C11", "C13", "C14", "C17"],
+        dict(name="seq", path="harness/seq (engine.go, exec.go, model in harness/model)", serves_properties=["C01", "C02", "C03", "C05", "C09", "C11", "C12", "C13", "C14", "C17"],
              kind_free_text="model-based stateful property testing of the assembled stack (real Badger, files, worker pool) through the public client API; inline and external (gRPC) bindings"),
         dict(name="crash", path="harness/seq/crash.go", serves_properties=["C04", "C05"],
              kind_free_text="child process executes a generated workload and SIGKILLs itself at the n-th persistent mutation (hook); parent enumerates n and judges the recovered state"),
